@@ -1,0 +1,10 @@
+//go:build verif
+
+package types
+
+// Contracts for the deductive checker in /verif (comment-only; compiled only with -tags verif).
+
+/*@
+func NewState
+    inline
+@*/
